@@ -33,16 +33,18 @@ type Step struct {
 
 // Case is one generated history.
 type Case struct {
-	N      int              `json:"n"`
-	Mgr    scen.MgrOpts     `json:"mgr"`
-	Cfg    []int            `json:"cfg"` // servers of the subject configuration
-	Call   scen.CallSpec    `json:"call"`
-	Nodes  map[int]NodePlan `json:"nodes"`
-	Steps  []Step           `json:"steps"`
-	Bg     []scen.CallSpec  `json:"bg,omitempty"`
-	BgCfg  [][]int          `json:"bg_cfg,omitempty"`
-	Gets   int              `json:"gets,omitempty"` // async: number of concurrent Get observers after completion
-	RecvBu uint             `json:"recv_buffer,omitempty"`
+	N     int              `json:"n"`
+	Mgr   scen.MgrOpts     `json:"mgr"`
+	Cfg   []int            `json:"cfg"` // servers of the subject configuration
+	Call  scen.CallSpec    `json:"call"`
+	Nodes map[int]NodePlan `json:"nodes"`
+	Steps []Step           `json:"steps"`
+	Bg    []scen.CallSpec  `json:"bg,omitempty"`
+	BgCfg [][]int          `json:"bg_cfg,omitempty"`
+	Gets  int              `json:"gets,omitempty"` // async: number of concurrent Get observers after completion
+	// PreStop lists servers stopped after the manager has connected but before the call is issued
+	PreStop []int `json:"pre_stop,omitempty"`
+	RecvBu  uint  `json:"recv_buffer,omitempty"`
 }
 
 // Result is what a run produced.
@@ -151,12 +153,23 @@ func Run(c Case) Result {
 		issueBg()
 	}
 
+	stopped := map[int]bool{}
+	for _, s := range c.PreStop {
+		if cl.Up(s) {
+			stopped[s] = true
+			cl.Stop(s)
+		}
+	}
+	if len(c.PreStop) > 0 {
+		time.Sleep(300 * time.Microsecond)
+	}
+
 	go subject.Issue()
 
 	log := cl.Log
 	live := map[int]bool{}
 	for _, s := range subject.Targets {
-		if c.plan(s).Kind != "down" {
+		if c.plan(s).Kind != "down" && !stopped[s] {
 			live[s] = true
 		}
 	}
@@ -181,7 +194,6 @@ func Run(c Case) Result {
 	log.WaitFor(wait, enteredAll)
 
 	cancelled := spec.Ctx == "precancelled"
-	stopped := map[int]bool{}
 	answered := map[int]bool{}
 	async := scen.IsAsync(spec.Kind)
 	checkEarlyDone := func(where string) {
